@@ -279,6 +279,9 @@ where
     pub fn write(&mut self, token: DataToken) -> Result<()> {
         match token {
             DataToken::SequenceStart { tag, len, .. } => {
+                // a header kept from a previous element (e.g. encapsulated pixel data)
+                // must not influence the items of this sequence
+                self.last_de = None;
                 match self.options.explicit_length_sq_item_strategy {
                     ExplicitLengthSqItemStrategy::SetUndefined => {
                         self.seq_tokens.push(SeqToken {
